@@ -462,7 +462,7 @@ func (r *ruleData) fromAuditRuleData(in *auditRuleData) error {
 	r.fieldFlags = make([]operator, in.FieldCount)
 	r.values = make([]uint32, in.FieldCount)
 
-	offset := uint32(0)
+	offset := uint64(0)
 	for i := uint32(0); i < in.FieldCount; i++ {
 		r.fields[i] = in.Fields[i]
 		r.fieldFlags[i] = in.FieldFlags[i]
@@ -472,8 +472,8 @@ func (r *ruleData) fromAuditRuleData(in *auditRuleData) error {
 			objectLevelHighField, pathField, dirField, subjectUserField,
 			subjectRoleField, subjectTypeField, subjectSensitivityField,
 			subjectClearanceField, keyField, exeField:
-			end := in.Values[i] + offset
-			if end > in.BufLen {
+			end := offset + uint64(in.Values[i])
+			if end > uint64(len(in.Buf)) {
 				return fmt.Errorf("field %d overflows buffer", i)
 			}
 			r.strings = append(r.strings, string(in.Buf[offset:end]))
